@@ -66,6 +66,13 @@ class HandleModel:
             n = ex.len_of(p, content)
             p.splices.append((buf, s, e, n, content, line))
             return [(f'replace[{s!r}..{e!r}) by {n!r} bytes', ('unit',), [])]
+        if name.endswith('Vec::<T, A>::truncate') and len(args) == 2 and isinstance(args[0], tuple) and args[0][0] == 'buf' and isinstance(args[1], Aff):
+            # truncate(n) with n <= len removes [n, len): a splice by nothing (placement n <= len is checked like any splice; n > len is a no-op
+            # in the library and would be reported as a misplaced splice here: no setter of this crate truncates beyond the end)
+            buf, n0 = args
+            e = sym(f'len({buf[1]})')
+            p.splices.append((buf, n0, e, Aff(), None, line))
+            return [(f'truncate at {n0!r}', ('unit',), [])]
         if name.endswith('utils::allocate_range'):
             buf, rng, n = args
             s, e = rng[3]
